@@ -394,6 +394,10 @@ def run(chk):
     fails += xfails
     chk.coverage.update(xstats)
     reproduced |= xrepro
+    ffails, fstats, frepro = fstring_oracle(chk, dbg, known)
+    fails += ffails
+    chk.coverage.update(fstats)
+    reproduced |= frepro
 
     chk.coverage["rule"] = ("seeded generator: valid fragment functions (C01's generator, every integer anchored to i64) with, in 55% of them, one injected "
                             "violation of a documented rule (22 kinds: 14 the checker misses, 8 it enforces) + the 11 witnesses; for EVERY function: real "
@@ -615,6 +619,88 @@ def mf_describe(u, stem, layout):
 
 def mf_errors(msg):
     return [b for b in re.split(r"\n(?=error|warning)", msg or "") if b.startswith("error") and "could not compile" not in b and "aborting" not in b]
+
+
+
+# ---- f-strings with several interpolations (audit after seed C17-4).  The parser parses every `{...}` from its own
+# substring, so the spans of NESTED sub-expressions are relative to the interpolation, and the checker's span-keyed maps
+# (expression types, identifier kinds) are last-writer-wins over the whole file.  Known class `fstring-span-collision`:
+# two interpolations anywhere in the file have a nested sub-expression at the same relative (start, end) with different
+# static types.  Every program outside that class must build.
+FS_VARS = {"a": "int", "b": "int", "xx": "float", "yy": "float", "x": "float", "y": "float"}
+
+
+def fs_nested(text):
+    """[(start, end, type)] of the nested operands of `V op W` (atoms have none: they carry the f-string's span)"""
+    m = re.fullmatch(r"(\w+(?:\.\d+)?) (\+|-|\*|//|%|/) (\w+(?:\.\d+)?)", text)
+    if not m:
+        return []
+    def ty(t):
+        return FS_VARS.get(t) or ("float" if "." in t else "int")
+    return [(m.start(1), m.end(1), ty(m.group(1))), (m.start(3), m.end(3), ty(m.group(3)))]
+
+
+def fs_collides(texts):
+    seen = {}
+    for t in texts:
+        for s, e, ty in fs_nested(t):
+            if seen.setdefault((s, e), ty) != ty:
+                return True
+    return False
+
+
+def fs_program(fstrings):
+    lines = ["def main() -> None:", "    a: int = 7", "    b: int = 2", "    x: float = 2.5", "    y: float = 0.5", "    xx: float = 1.5", "    yy: float = 4.0"]
+    for parts in fstrings:
+        lines.append('    println(f"%s")' % " ".join("{%s}" % t for t in parts))
+    return "\n".join(lines) + "\n"
+
+
+def fstring_oracle(chk, binary, known):
+    rng = chk.rng
+    consistent = ["a + b", "a + 1", "b * 2", "a // b", "a % b", "a - 1", "a / b", "xx + yy", "yy * xx", "xx // yy", "xx % yy", "xx / yy",
+                  "a + xx", "b * yy", "xx + a", "yy - b", "a", "xx", "b", "a + yy"]
+    assert not fs_collides(consistent)
+    fstrings = [[t] for t in consistent]
+    for _ in range(40):
+        k = rng.choice([2, 2, 3, 4])
+        fstrings.append([rng.choice(consistent) for _ in range(k)])
+    demanded = fs_program(fstrings)
+    witnesses = {"same-fstring": fs_program([["a + 1", "x + a"]]),
+                 "two-statements": fs_program([["x + 1"], ["a + 1"]])}
+    assert all(fs_collides(re.findall(r"\{([^}]*)\}", w)) for w in witnesses.values())
+    tagp = "c02fs%dp%d" % (chk.seed % 100000, os.getpid() % 100000)
+    progs = [(tagp + "d", demanded)] + [(tagp + "w%d" % i, witnesses[k]) for i, k in enumerate(sorted(witnesses))]
+    real = c01.emit_real(binary, [src for _, src in progs])
+    fails, reproduced = [], set()
+    stats = {"fstring_family": {"interpolation_pool": consistent, "fstrings_in_demanded_program": len(fstrings),
+                                "interpolations_per_fstring": {str(k): sum(1 for f in fstrings if len(f) == k) for k in (1, 2, 3, 4)},
+                                "witnesses_in_known_class": sorted(witnesses)}}
+    d = c01.scratch_dir("c02fs")
+    try:
+        accepted = [(stem, src) for (stem, src), r in zip(progs, real) if not r.get("check") and "panic" not in r]
+        if (tagp + "d") not in [s_ for s_, _ in accepted]:
+            raise vlib.Infra("c02 f-string family: the collision-free program is rejected by the checker: %s" % str(real[0])[:400])
+        built = c01.build_programs(binary, d, accepted)
+        ok, msg, _ = built[tagp + "d"]
+        if not ok:
+            errs = "\n".join(b for b in re.split(r"\n(?=error|warning)", msg) if b.startswith("error"))[:2500]
+            fails.append({"case": "f-strings with 1-4 interpolations whose nested sub-expressions have one static type per relative position",
+                          "program": demanded, "accepted_by": "real checker", "stage": "rustc", "actual": errs or msg[-1500:],
+                          "why": "the checker accepts this program, code generation succeeds, rustc rejects the generated Rust"})
+        else:
+            chk.count_case(("fstring-family", demanded), nontrivial=True)
+        for stem, _ in accepted[1:]:
+            if not built[stem][0]:
+                reproduced.add("fstring-span-collision")
+    finally:
+        shutil.rmtree(d, ignore_errors=True)
+        c01.clean_gen_target([stem for stem, _ in progs])
+    if "fstring-span-collision" in reproduced and "fstring-span-collision" not in known:
+        fails.append({"case": "f-string interpolations with colliding relative spans", "program": witnesses["same-fstring"], "accepted_by": "real checker",
+                      "stage": "rustc", "why": "the checker accepts this program, code generation succeeds, rustc rejects the generated Rust "
+                                               "(`a + (1) as f64` for int a: the type recorded for the literal comes from the other interpolation)"})
+    return fails, stats, reproduced
 
 
 def mf_oracle(chk, binary, known):
